@@ -1,5 +1,6 @@
 import PrimaiteModel.Model.Route
 import PrimaiteModel.Model.Forward
+import PrimaiteModel.Props.C08Addressee
 open Primaite Primaite.Route Primaite.Forward
 
 structure D where
@@ -111,6 +112,7 @@ def step (d : D) : List String → D × String
     match n.toNat? with
     | some n => ({ d with net := d.net.modNode n (fun nd => { nd with arp := [] }) }, "ok")
     | none => (d, "bad-op")
+  | ["goodstate"] => (d, showBool (goodStateB d.net))
   | ["dumparp", n] =>
     match n.toNat?.bind d.net.node? with
     | some nd => (d, "arp " ++ showArp nd)
